@@ -330,7 +330,7 @@ def run(chk):
     noref = [b for b in behs if not b['refs']]
     rnd.shuffle(withref)
     rnd.shuffle(noref)
-    n1, n2, n3 = (3500, 1000, 150) if tier == 'quick' else (80000, 20000, 1500)
+    n1, n2, n3 = (3500, 1000, 150) if tier == 'quick' else (25000, 8000, 800)
     jobs = [(b, 'pure') for b in withref[:n1]] + [(b, 'pure') for b in noref[:n2]]
     seen = set()
     for b in rs.beh:
